@@ -192,6 +192,9 @@ structure Outcome where
   endSnap : Option Snap := none
   harnessErr : Bool := false
   nEvents : Nat := 0
+  /-- the next arrival of this thread happened while the thread the scheduler had released was still running (it
+  had been blocked on a lock that thread released): its snapshot may show half of that thread's segment -/
+  concurrentArrival : Option String := none
 
 def feed (o : Outcome) (ev : String) : Outcome :=
   if o.err.isSome then o else
@@ -204,11 +207,13 @@ def feed (o : Outcome) (ev : String) : Outcome :=
       | tm :: snapRev =>
         match parseSnap snapRev.reverse with
         | some snap => do
-          let st ← stepY o.st role pt (parseNatOpt job) snap (timeOf tm)
+          let st ← stepY o.st role pt (parseNatOpt job) snap (timeOf tm) (o.concurrentArrival != some role)
           let a ← absLabels o.st st o.abs "Y" role pt pt o.nEvents
-          pure { o with st := st, abs := a, lm := ledgerLabels o.st st o.lm "Y" role pt (parseNatOpt job) [] }
+          pure { o with st := st, abs := a, lm := ledgerLabels o.st st o.lm "Y" role pt (parseNatOpt job) [],
+                        concurrentArrival := none }
         | none => .error "BADEVENT snapshot"
       | [] => .error "BADEVENT"
+    | ["Q", role] => pure { o with concurrentArrival := some role }
     | ["R", role, pt] => do
       let st ← stepRelease o.st role pt
       let a ← absLabels o.st st o.abs "R" role pt "" o.nEvents
@@ -284,5 +289,49 @@ def handle (toks : List String) : String :=
         else if st.jobCount != 0 || st.regCount != 0 then
           "SPECFAIL:C06 after_the_final_Terminate jobCount=" ++ toString st.jobCount ++ " jobs=" ++ toString st.regCount
         else "OK"
+
+/-! ## flood scenarios (large batches, run freely): C04's clauses evaluated on the observed log -/
+
+/-- `S name k:ok,k:ok,…` sections followed by `X id id …`; ids are `name:k` -/
+def handleFlood (toks : List String) : String :=
+  match toks with
+  | [_, "HANG"] => "SPECFAIL:C07 flood:_the_scenario_did_not_finish_(Stop/Terminate_or_the_queue_never_drained)"
+  | _ :: rest =>
+    let (secs, xs) := rest.span (· != "X")
+    let executed := xs.drop 1
+    -- sections
+    let rec parseSecs (l : List String) (fuel : Nat) : Option (List (String × List (Nat × Bool))) :=
+      match fuel, l with
+      | _, [] => some []
+      | 0, _ => none
+      | fuel + 1, "S" :: name :: items :: more => do
+        let its ← (items.splitOn ",").mapM fun it =>
+          match it.splitOn ":" with
+          | [k, ok] => do pure ((← k.toNat?), ok == "true")
+          | _ => none
+        let restSecs ← parseSecs more fuel
+        pure ((name, its) :: restSecs)
+      | _, _ => none
+    match parseSecs secs (secs.length + 1) with
+    | none => "BADLINE flood"
+    | some ss =>
+      let accepted : List String := ss.flatMap fun (n, its) => (its.filter (·.2)).map fun it => n ++ ":" ++ toString it.1
+      let refused : List String := ss.flatMap fun (n, its) => (its.filter (!·.2)).map fun it => n ++ ":" ++ toString it.1
+      let dup := executed.length != executed.eraseDups.length
+      let missing := accepted.filter (!executed.contains ·)
+      let extra := executed.filter (!accepted.contains ·)
+      let ranRefused := refused.filter (executed.contains ·)
+      let badOrder := ss.filter fun (n, its) =>
+        let mine := executed.filterMap fun id => match id.splitOn ":" with
+          | [m, k] => if m == n then k.toNat? else none
+          | _ => none
+        mine != (its.filter (·.2)).map (·.1)
+      if dup then "SPECFAIL:C04 flood:_a_function_was_executed_more_than_once"
+      else if !ranRefused.isEmpty then "SPECFAIL:C04 flood:_a_refused_function_was_executed:_" ++ (ranRefused.head?.getD "")
+      else if !missing.isEmpty then "SPECFAIL:C04 flood:_an_accepted_function_was_never_executed:_" ++ (missing.head?.getD "") ++ s!"_({missing.length}_of_{accepted.length})"
+      else if !extra.isEmpty then "SPECFAIL:C04 flood:_something_was_executed_that_nobody_submitted:_" ++ (extra.head?.getD "")
+      else if !badOrder.isEmpty then "SPECFAIL:C04 flood:_the_functions_of_submitter_" ++ ((badOrder.head?.map (·.1)).getD "") ++ "_did_not_run_in_its_order"
+      else "OK"
+  | _ => "BADLINE flood"
 
 end GN.Driver.EL
